@@ -127,10 +127,29 @@ pub fn vec_map_filter_map_collect<F: Fn(Identifier) -> Ident, P: Fn(&Ident) -> b
     open spec fn range_spec(&self) -> Range<usize> { self.range }
 //@end
 
-/// an occurrence as the handlers see it: its name and the text range of its tokens
-pub open spec fn seen_as(id: Identifier, ts: Seq<Token>) -> Ident { Ident { value: id.value, range: text_range_of(ts, id.info.range) } }
+/// an identifier owns at least its own token (parser; assumed)
+pub open spec fn owns_a_token(ts: Seq<Token>, r: Range<usize>) -> bool { r.start < r.end <= ts.len() }
+/// the text range of the token that holds an identifier itself: the last token of the identifier's token range (the range may start with the comments
+/// in front of it, which are no part of the occurrence — D19)
+pub open spec fn name_range(ts: Seq<Token>, r: Range<usize>) -> Range<usize> {
+    if r.start < r.end { ts[r.end - 1].range } else { text_range_of(ts, r) }
+}
+//~assume `AstInfo::slice` returns the node's own tokens (proved in unit `ast`, used here by contract)
+//@extract spl_frontend/src/ast.rs :: impl AstInfo :: fn slice
+//@ ret r
+//@ sig
+        requires self.range.start <= self.range.end <= tokens@.len(),
+        ensures r@ == tokens@.subrange(self.range.start as int, self.range.end as int),
+//@ assume_body fn slice
+//@end
+//@extract lsp4spl/src/features/references.rs :: fn name_text_range
+//@ ret r
+//@ sig
+    requires owns_a_token(tokens@, identifier.info.range),
+    ensures r == name_range(tokens@, identifier.info.range), //# name_text_range::the_identifier_s_own_token
+//@end
 pub open spec fn lsp_range(r: Range<usize>, text: Seq<char>) -> PosRange { PosRange { start: pos_of(r.start, text), end: pos_of(r.end, text) } }
-pub open spec fn occurrences_ok(occ: Seq<Identifier>, ts: Seq<Token>) -> bool { forall|i: int| 0 <= i < occ.len() ==> range_in(ts, (#[trigger] occ[i]).info.range) }
+pub open spec fn occurrences_ok(occ: Seq<Identifier>, ts: Seq<Token>) -> bool { forall|i: int| 0 <= i < occ.len() ==> owns_a_token(ts, (#[trigger] occ[i]).info.range) }
 
 /// "Prepare-rename returns the identifier's range exactly when rename is offered": on an identifier other than `int`
 //@extract lsp4spl/src/features/references.rs :: fn prepare_rename :: iflet cursor
@@ -145,7 +164,7 @@ pub open spec fn occurrences_ok(occ: Seq<Identifier>, ts: Seq<Token>) -> bool { 
 
 /// "rename returns one edit per occurrence of that binding (declaration included) and nothing else"
 pub open spec fn rename_edits_ok(edits: Seq<TextEdit>, occ: Seq<Identifier>, doc: AnalyzedSource, new_name: Seq<char>) -> bool {
-    edits.len() == occ.len() && forall|i: int| 0 <= i < occ.len() ==> (#[trigger] edits[i]).range == lsp_range(text_range_of(doc.tokens@, occ[i].info.range), doc.text@) && edits[i].new_text@ == new_name
+    edits.len() == occ.len() && forall|i: int| 0 <= i < occ.len() ==> (#[trigger] edits[i]).range == lsp_range(name_range(doc.tokens@, occ[i].info.range), doc.text@) && edits[i].new_text@ == new_name
 }
 //@extract lsp4spl/src/features/references.rs :: fn rename :: iflet cursor
 //@ rewrite ident_eq_int map_map_collect new_name_clone workspace_edit_single
@@ -160,8 +179,8 @@ pub open spec fn rename_edits_ok(edits: Seq<TextEdit>, occ: Seq<Identifier>, doc
         (cursor_ident(cursor) is Some && cursor.context is Some && cursor_ident(cursor)->0.value@ != "int"@) ==> r->Ok_0 is Some && exists|edits: Seq<TextEdit>| r->Ok_0->0 == single_doc_edit(uri, edits) && rename_edits_ok(edits, bound_occurrences(cursor_ident(cursor)->0, cursor.context->0, cursor.doc.ast, cursor.doc.table), cursor.doc, new_name@), //# rename::one_edit_per_occurrence_of_the_binding_in_this_document
 //@ closure |identifier| : Identifier
  -> (m: Ident)
-                        requires range_in(doc.tokens@, identifier.info.range),
-                        ensures m.value@ == identifier.value@ && m.range == text_range_of(doc.tokens@, identifier.info.range)
+                        requires owns_a_token(doc.tokens@, identifier.info.range),
+                        ensures m.value@ == identifier.value@ && m.range == name_range(doc.tokens@, identifier.info.range)
 //@ closure |ident| : Ident
  -> (e: TextEdit)
                         ensures e.range == lsp_range(ident.range, doc.text@) && e.new_text@ == new_name@
@@ -175,7 +194,7 @@ proof {
 
 /// "find-references returns exactly the other occurrences bound to the same declaration": every occurrence except the one under the cursor, in walk order
 pub open spec fn other_occurrences(occ: Seq<Identifier>, doc: AnalyzedSource, uri: Url, cursor_id: Ident) -> Seq<Location> {
-    others(occ, |id: Identifier| text_range_of(doc.tokens@, id.info.range), |name: Seq<char>, r: Range<usize>| !(name == cursor_id.value@ && r == cursor_id.range),
+    others(occ, |id: Identifier| name_range(doc.tokens@, id.info.range), |name: Seq<char>, r: Range<usize>| !(name == cursor_id.value@ && r == cursor_id.range),
         |r: Range<usize>| Location { uri, range: lsp_range(r, doc.text@) }, occ.len())
 }
 //@extract lsp4spl/src/features/references.rs :: fn find :: iflet cursor
@@ -191,8 +210,8 @@ pub open spec fn other_occurrences(occ: Seq<Identifier>, doc: AnalyzedSource, ur
         (cursor_ident(cursor) is Some && cursor.context is Some) ==> r->Ok_0 is Some && r->Ok_0->0@ == other_occurrences(bound_occurrences(cursor_ident(cursor)->0, cursor.context->0, cursor.doc.ast, cursor.doc.table), cursor.doc, uri, cursor_ident(cursor)->0), //# find::exactly_the_other_occurrences_of_the_binding
 //@ closure |identifier| : Identifier
  -> (m: Ident)
-                        requires range_in(doc.tokens@, identifier.info.range),
-                        ensures m.value@ == identifier.value@ && m.range == text_range_of(doc.tokens@, identifier.info.range)
+                        requires owns_a_token(doc.tokens@, identifier.info.range),
+                        ensures m.value@ == identifier.value@ && m.range == name_range(doc.tokens@, identifier.info.range)
 //@ closure |i| nth 0 of 2 : &Ident
  -> (b: bool)
                         ensures b == !(i.value@ == ident.value@ && i.range == ident.range)
@@ -200,7 +219,7 @@ pub open spec fn other_occurrences(occ: Seq<Identifier>, doc: AnalyzedSource, ur
  -> (l: Location)
                         ensures l == (Location { uri, range: lsp_range(i.range, doc.text@) })
 //@ after_closure |i| nth 1 of 2
-, Ghost(|id: Identifier| text_range_of(doc.tokens@, id.info.range)), Ghost(|name: Seq<char>, r: Range<usize>| !(name == ident.value@ && r == ident.range)), Ghost(|r: Range<usize>| Location { uri, range: lsp_range(r, doc.text@) })
+, Ghost(|id: Identifier| name_range(doc.tokens@, id.info.range)), Ghost(|name: Seq<char>, r: Range<usize>| !(name == ident.value@ && r == ident.range)), Ghost(|r: Range<usize>| Location { uri, range: lsp_range(r, doc.text@) })
 //@end
 //~not_decided `doc_cursor` (async), `DocumentCursor::ident` (assumed), the outermost iteration of find_procs / find_types / find_vars over the global declarations, "applying a rename yields a program with the same diagnostics" and "renaming back restores the text" (relations between runs of the whole front end)
 //~assume a procedure has no parameter or local variable of its own name (the handlers decide by name whether the cursor is on the enclosing procedure's own name)
